@@ -38,7 +38,8 @@ Record xopc := { x_code : N; x_off : N; x_a : N; x_b : N; x_c : N }.
 Record case17x := { cx_mode : mode; cx_rkind : N; cx_size : N; cx_gbase : N; cx_page : N;
                     cx_ops : list xopc }.
 (* device events seen by the emulated gntdev during one operation *)
-Inductive dev_ev := DMap (gref count index : N) | DUnmap (index count : N).
+Inductive dev_ev := DMap (gref count index : N) | DUnmap (index count : N)
+  | DRefs (l : list (N * N)).   (* follows its DMap: the (domid, grant reference) of every page the request named *)
 (* r: 0 returned Err, 1 done, 2 panicked, 3 the process died (signal), 4 the kernel refused the guest buffer of
    a descriptor transfer with EFAULT: at the time of the read(2)/write(2) no mapping covered the bytes;
    data = 1 iff the backing memory (read back through the device file) and the returned bytes are
@@ -103,3 +104,124 @@ Definition ok_C17x (c : case17x) (o : obs17x) : bool :=
     (if cx_rkind c =? 3 then ox_mapped_alive o =? 0 else true) &&   (* none remains *)
     (ox_mapped_end o =? 0) && (ox_live_end o =? 0)
   else true.   (* the region could not be constructed (C15's domain): no access to judge *)
+
+(* ------------------------------------------------------------------ xen build: the pages a window NAMES
+   "a temporary mapping that covers all bytes it touches": page i of the window mapped by a request for (first, count)
+   shows guest page first + i only if the request names it so: its reference list has to be
+   (domid of the region, first + i) for i < count.  The regions of the cases are built with a non-zero domid: *)
+Definition case_domid (gbase page : N) : N := (gbase / page) mod 5 + 1.
+Fixpoint refs_seq (domid first : N) (l : list (N * N)) {struct l} : bool :=
+  match l with
+  | [] => true
+  | (d, r) :: t => (d =? domid) && (r =? first) && refs_seq domid (first + 1) t
+  end.
+(* every map request of the log is followed by its reference list, and that list is right *)
+Fixpoint maps_named (domid : N) (evs : list dev_ev) {struct evs} : bool :=
+  match evs with
+  | [] => true
+  | DMap g c _ :: r =>
+      match r with
+      | DRefs l :: r' => (N.of_nat (length l) =? c) && refs_seq domid g l && maps_named domid r'
+      | _ => false
+      end
+  | _ :: r => maps_named domid r
+  end.
+Definition strip_refs (evs : list dev_ev) : list dev_ev :=
+  filter (fun e => match e with DRefs _ => false | _ => true end) evs.
+Definition strip_op (p : opobs) : opobs :=
+  {| p_r := p_r p; p_data := p_data p; p_live := p_live p; p_evs := strip_refs (p_evs p) |}.
+Definition strip_obs (o : obs17x) : obs17x :=
+  {| ox_built := ox_built o; ox_ops := map strip_op (ox_ops o); ox_mapped_alive := ox_mapped_alive o;
+     ox_mapped_end := ox_mapped_end o; ox_live_end := ox_live_end o |}.
+(* the history checker, plus: every window names the pages it is judged to cover *)
+Definition ok_C17xn (c : case17x) (o : obs17x) : bool :=
+  ok_C17x c (strip_obs o) &&
+  forallb (fun p => maps_named (case_domid (cx_gbase c) (cx_page c)) (p_evs p)) (ox_ops o).
+
+(* ------------------------------------------------------------------ xen build: derivation chains (suite C17xenchain)
+   A case: a region, an accessor obtained from it (root), a chain of derivations - each hands out a new accessor
+   from the last one -, and ONE access through the last accessor.  "every access the library performs takes place
+   inside a temporary mapping that covers all bytes it touches": whichever way the accessor was reached.
+   Written from the documented meaning of the methods, in exact arithmetic.
+   root  [code,a,b,c]: 0 region.get_slice(a, b) (VolatileMemory)  1 region.get_slice(MemoryRegionAddress(a), b)
+                       2 region.as_volatile_slice() (GuestMemoryRegion)  3 region.get_ref::<[u8; b]>(a)
+                       4 region.get_array_ref::<[u8; b]>(a, c)   5 VolatileMemory::as_volatile_slice(&MmapRegion)
+   step  [code,a,b,c]: on a slice: 0 subslice(a, b)  1 offset(a)  2 split_at(a).0  3 split_at(a).1  4 get_slice(a, b)
+                       5 get_ref::<[u8; b]>(a)  6 get_array_ref::<[u8; b]>(a, c)  7 as_volatile_slice()
+                       8 VolatileArrayRef::<u8>::from(slice)
+                       on every accessor: 9 Clone::clone  10 a Copy (let x = *&acc)
+                       on a typed reference and on an array: 11 to_slice()      on an array: 12 ref_at(a)
+   final [code,a,b,c]: 0 ptr_guard, every byte read through it   1 ptr_guard_mut, every byte written through it
+                       2 slice: Bytes::read of a buffer as long as the slice at 0; reference: load()
+                       3 slice: Bytes::write ...; reference: store(v)
+                       4 array: load(a)   5 array: store(a, v) *)
+Record cstep := { k_code : N; k_a : N; k_b : N; k_c : N }.
+Record case17c := { cc_mode : mode; cc_rkind : N; cc_size : N; cc_gbase : N; cc_page : N;
+                    cc_root : cstep; cc_steps : list cstep; cc_final : cstep }.
+
+(* an accessor as the documentation describes it: the bytes it designates *)
+Inductive sacc := SS (off len : N) | SR (off t : N) | SA (off t n : N).
+
+(* None: the request is refused (out of range) or is not defined (panics, not a method of this accessor) *)
+Definition s_root (size : N) (k : cstep) : option sacc :=
+  let a := k_a k in let b := k_b k in let c := k_c k in
+  match k_code k with
+  | 0 | 1 => if a + b <=? size then Some (SS a b) else None
+  | 2 | 5 => Some (SS 0 size)
+  | 3 => if a + b <=? size then Some (SR a b) else None
+  | 4 => if a + c * b <=? size then Some (SA a b c) else None
+  | _ => None
+  end.
+Definition s_step (x : sacc) (k : cstep) : option sacc :=
+  let a := k_a k in let b := k_b k in let c := k_c k in
+  match x, k_code k with
+  | SS off len, 0 | SS off len, 4 => if a + b <=? len then Some (SS (off + a) b) else None
+  | SS off len, 1 | SS off len, 3 => if a <=? len then Some (SS (off + a) (len - a)) else None
+  | SS off len, 2 => if a <=? len then Some (SS off a) else None
+  | SS off len, 5 => if a + b <=? len then Some (SR (off + a) b) else None
+  | SS off len, 6 => if a + c * b <=? len then Some (SA (off + a) b c) else None
+  | SS off len, 7 => Some x
+  | SS off len, 8 => Some (SA off 1 len)
+  | _, 9 | _, 10 => Some x
+  | SR off t, 11 => Some (SS off t)
+  | SA off t n, 11 => Some (SS off (n * t))
+  | SA off t n, 12 => if a <? n then Some (SR (off + a * t) t) else None
+  | _, _ => None
+  end.
+Fixpoint s_steps (x : sacc) (l : list cstep) {struct l} : option sacc :=
+  match l with
+  | [] => Some x
+  | k :: r => match s_step x k with Some y => s_steps y r | None => None end
+  end.
+(* the bytes the final access touches (first, count) and whether it writes *)
+Definition s_final (x : sacc) (k : cstep) : option (N * N * bool) :=
+  match x, k_code k with
+  | SS off len, 0 | SS off len, 2 => Some (off, len, false)
+  | SS off len, 1 | SS off len, 3 => Some (off, len, true)
+  | SR off t, 0 | SR off t, 2 => Some (off, t, false)
+  | SR off t, 1 | SR off t, 3 => Some (off, t, true)
+  | SA off t n, 0 => Some (off, n * t, false)
+  | SA off t n, 1 => Some (off, n * t, true)
+  | SA off t n, 4 => if k_a k <? n then Some (off + k_a k * t, t, false) else None
+  | SA off t n, 5 => if k_a k <? n then Some (off + k_a k * t, t, true) else None
+  | _, _ => None
+  end.
+Definition s_touched (c : case17c) : option (N * N * bool) :=
+  match s_root (cc_size c) (cc_root c) with
+  | Some x => match s_steps x (cc_steps c) with Some y => s_final y (cc_final c) | None => None end
+  | None => None
+  end.
+
+(* the access, as an operation of the history checker: opcode 2 = "all bytes [off, off+a) accessed through one
+   guard"; no access (refused / undefined): an operation that touches nothing *)
+Definition chain_xopc (c : case17c) : xopc :=
+  match s_touched c with
+  | Some (off, len, w) => {| x_code := 2; x_off := off; x_a := len; x_b := if w then 1 else 0; x_c := 0 |}
+  | None => {| x_code := 2; x_off := cc_size c + 1; x_a := 0; x_b := 0; x_c := 0 |}
+  end.
+Definition case17x_of (c : case17c) : case17x :=
+  {| cx_mode := cc_mode c; cx_rkind := cc_rkind c; cx_size := cc_size c; cx_gbase := cc_gbase c;
+     cx_page := cc_page c; cx_ops := [chain_xopc c] |}.
+(* judged exactly like the one-operation history: not faulted, data right, on an on-demand region a window of the
+   operation covers the bytes, released afterwards, nothing remains *)
+Definition ok_C17c (c : case17c) (o : obs17x) : bool := ok_C17xn (case17x_of c) o.
